@@ -51,12 +51,27 @@ def judge(run, cases, rows):
                         theorem="correspondence Arb.Model ~ internal/k8s/configuration.go (hosts, GetResources)", found_input=False)
 
 
+def judge_served(run, cases, rows):
+    """what NGINX is given: the TLS passthrough host map must route every passthrough host to its owner and only those"""
+    from . import arbfiles
+    for c in cases:
+        if c.get("error") or c["id"] not in rows:
+            continue
+        r = rows[c["id"]]
+        run.cov["traces_validated_against_impl"] += 1
+        if r[arbfiles.DPT] != 0:
+            arbfiles.judge_pt(run, c, r, "C01")
+
+
 def check(run):
     n = 200 if run.tier == "quick" else 4000
     run.proof_obligations()
-    cases = arb.generate(run, n)
+    cases = arb.generate(run, n, ctl=True)
     rows = arb.evaluate(run, cases)
     judge(run, cases, rows)
+    part = [c for c in cases if not c.get("error") and c["tls_passthrough"]][: (80 if run.tier == "quick" else 1500)]
+    judge_served(run, part, arb.evaluate(run, part, fn="ctl_case", extra=arb.ctl_term, tag="arbctl"))
+    run.cov["controller_level_histories"] = len(part)
     for c in cases[:2]:
         run.sample(arb.summarize_case(c))
     run.cov["events_total"] = sum(len(c["histories"][0]["events"]) for c in cases)
@@ -72,7 +87,12 @@ def check(run):
 
 
 def replay(run, path):
-    cases = arb.replay_cases(run, path)
+    cases = arb.replay_cases(run, path, ctl=True)
+    crow = arb.evaluate(run, cases, fn="ctl_case", extra=arb.ctl_term, tag="arbctl")
+    for c in cases:
+        if not c.get("error") and c["id"] in crow:
+            print("replay case %d (controller level): first step at which tls-passthrough-hosts.conf is not exact = %d" % (c["id"], crow[c["id"]][10]))
+    judge_served(run, cases, crow)
     rows = arb.evaluate(run, cases)
     for c in cases:
         if c.get("error"):
